@@ -1,4 +1,8 @@
 import OxyModel.Proofs.Stack.Basic
+import OxyModel.Proofs.Stack.Link
+import OxyModel.Props.C01
+import OxyModel.Props.C05
+import OxyModel.Props.C15
 
 /-!
 # C20 — middleware stacks are transparent or decisive
@@ -416,5 +420,452 @@ example : (serveStack sRetry h504 ⟨0⟩).invoked = 3 ∧ (serveStack sRetry h5
     ∧ (serveStack sRetry h503 ⟨0⟩).invoked = 1 ∧ (∀ l ∈ sRetry, passes l ⟨0⟩ (h503 ⟨0⟩)) := by decide
 example : (serveSt sRetry [0, 0, 9, 0] h504 ⟨0⟩ false Caps.real).1 = Outcome.served (serveStack sRetry h504 ⟨0⟩)
     ∧ (serveSt sRetry [0, 0, 9, 0] h504 ⟨0⟩ false Caps.real).2 = [0, 0, 6, 0] := by decide
+
+/-! ## Link theorems: the stack's abstraction of a layer is what the layer's own model decides
+
+`Stack.eff` / `LayerCfg.tripped` / `LayerCfg.maxReq` reduce every deciding layer to one number or flag.  The theorems below
+show, for the **actual** per-layer models (the objects of the C04, C03/C13, C05, C01/C02 and C15 theorems), that an
+abstraction function from the states of that model to that number / flag commutes with the model's steps: the model refuses
+exactly when `Stack.intervenes` says so, an admission moves the abstract state as `Stack.enter`, every exit as `Stack.leave`.
+So the hypotheses `intervenes … = false/true` of `C20_transparent` / `C20_decisive` are *decisions of the per-layer models*
+(`C20_link_decision`, `C20_transparent_composed`, `C20_decisive_composed`), not assumptions. -/
+
+section link
+open StackLink
+
+/-- **connlimit.**  Abstraction `connAbs s src` = number of requests of `src` inside the protected handler.  After *every*
+history `h` of unit-amount events (the built-in extractors, C19; arrivals, exits of both kinds, protocol misuse, rejections in
+progress, any number of sources) on a limiter with limit `m`, and for a connlimit layer with `limit := m`:
+1. the table entry `connections[src]` is that number (the C04 invariant);
+2. `acquire` refuses iff `Stack.intervenes (Stack.eff l n)`;
+3. an arrival with an unused id: admitted when the stack passes, and the number becomes `Stack.enter .connlimit n`; turned away
+   (429 at once, or parked in a slow error handler) when the stack intervenes, and nothing changes;
+4. a request of `src` leaving the handler — by return **or** by panic — makes it `Stack.leave .connlimit n`;
+5. exits and arrivals of other sources leave it alone. -/
+theorem C20_link_connlimit (m : Nat) (slow : Bool) (h : List ConnLimit.Event) (h1 : ConnLimit.amountsOne h = true)
+    (src : String) (l : LayerCfg) (hk : l.kind = Kind.connlimit) (hl : l.limit = m) (req : Req) :
+    let s := ConnLimit.runR (ConnLimit.SysR.init (m : Int) slow) h
+    let n := connAbs s src
+    ConnLimit.get s.base.st.conns src = (n : Int)
+    ∧ (ConnLimit.acquire s.base.st src 1 s.base.max).isNone = intervenes (eff l n) req
+    ∧ (∀ id, ConnLimit.findReq s.base.inflight id = none → ConnLimit.findRej s.rejecting id = none →
+        (intervenes (eff l n) req = false →
+          (ConnLimit.stepR s (.start id src 1)).2 = .base .admitted
+          ∧ connAbs (ConnLimit.stepR s (.start id src 1)).1 src = enter Kind.connlimit n) ∧
+        (intervenes (eff l n) req = true →
+          ((ConnLimit.stepR s (.start id src 1)).2 = .base .rejected ∨ (ConnLimit.stepR s (.start id src 1)).2 = .rejecting)
+          ∧ connAbs (ConnLimit.stepR s (.start id src 1)).1 src = n))
+    ∧ (∀ id r how, ConnLimit.findReq s.base.inflight id = some r → ConnLimit.findRej s.rejecting id = none →
+        (ConnLimit.stepR s (.finish id how)).2 = .base .released
+        ∧ (r.src = src → connAbs (ConnLimit.stepR s (.finish id how)).1 src = leave Kind.connlimit n)
+        ∧ (r.src ≠ src → connAbs (ConnLimit.stepR s (.finish id how)).1 src = n))
+    ∧ (∀ id src' a, src' ≠ src → connAbs (ConnLimit.stepR s (.start id src' a)).1 src = n) := by
+  intro s n
+  have hu : ConnLimit.Unit1 s.base :=
+    ConnLimit.Unit1.after_runR (s := ConnLimit.SysR.init (m : Int) slow) (ConnLimit.Unit1.init _) h (ConnLimit.amountsOne_spec h1)
+  have hmax : (l.limit : Int) = s.base.max := by
+    rw [hl]; exact (ConnLimit.runR_max (ConnLimit.SysR.init (m : Int) slow) h).symm
+  have hdec := conn_decision hu src l hk hmax req
+  refine ⟨hu.get_eq_count src, hdec, ?_, ?_, ?_⟩
+  · intro id hf hr
+    obtain ⟨ha, hrj⟩ := conn_start s id src hf hr
+    constructor
+    · intro hi
+      have hacq : ConnLimit.acquire s.base.st src 1 s.base.max ≠ none := by
+        intro hq; rw [hq] at hdec; rw [← hdec] at hi; simp at hi
+      exact ha hacq
+    · intro hi
+      have hacq : ConnLimit.acquire s.base.st src 1 s.base.max = none := by
+        rw [← hdec] at hi; simpa using hi
+      refine ⟨(hrj hacq).1, ?_⟩
+      show connAbs _ src = connAbs s src
+      unfold connAbs; rw [(hrj hacq).2]
+  · intro id r how hf hr
+    obtain ⟨ho, hc⟩ := conn_finish s id r how hf hr src
+    refine ⟨ho, ?_, ?_⟩
+    · intro he
+      simp only [he, if_true] at hc
+      show _ = n - 1
+      show connAbs _ src = connAbs s src - 1
+      omega
+    · intro he
+      simp only [he, if_false] at hc
+      exact hc
+  · intro id src' a hne
+    exact conn_start_other s id src' src a hne
+
+/-- **ratelimit.**  Abstraction `rateAbs l t src` = tokens left for `src` at the instant `t`: over the bucket set `consumeRates`
+would work on (the tracked set, or a new full one at first contact / after expiry), the smallest bucket after the refill that
+`consume` starts with.  (For the single-rate limiters of the C20 harness this is `availableTokens` of the one bucket:
+`StackLink.minAvail_single`; the statement holds for any non-empty set of valid rates.)  For every limiter state satisfying the
+reachability invariant of C13 (`C13_reachable`) at `t0 ≤ t`, a request of amount 1 at the frozen instant `t`:
+1. is refused with 429 iff `Stack.intervenes (Stack.eff l n)`, i.e. iff no token is left, and admitted otherwise (never 500);
+2. an admission takes one token: `Stack.enter .ratelimit n`, at the same instant;
+3. a refusal takes nothing (C13's no-debit);
+4. nothing is given back on exit: `Stack.leave .ratelimit = id`;
+5. the invariant holds again afterwards (so 1–4 apply to the next request at `t`), and requests of other sources that do not
+   evict `src`'s entry leave `src`'s tokens alone. -/
+theorem C20_link_ratelimit (rates : List RL.Rate) (hv : RL.ValidRates rates) (hne : rates ≠ []) (lim : RL.Limiter) (t0 t : Nat)
+    (hinv : RL.LimiterInv rates lim t0) (ht : t0 ≤ t) (src victim : String)
+    (l : LayerCfg) (hk : l.kind = Kind.ratelimit) (req : Req) :
+    let n := rateAbs lim t src
+    let r := lim.serve t src 1 [] victim
+    ((∃ d, r.2 = .tooMany d) ↔ intervenes (eff l n) req = true)
+    ∧ (r.2 = .ok ↔ intervenes (eff l n) req = false)
+    ∧ (r.2 = .ok → rateAbs r.1 t src = enter Kind.ratelimit n)
+    ∧ (r.2 ≠ .ok → rateAbs r.1 t src = n)
+    ∧ (∀ k, leave Kind.ratelimit k = k)
+    ∧ RL.LimiterInv rates r.1 t
+    ∧ (∀ s' a v, src ≠ s' → (lim.evictsAt t s' = true → v ≠ src) → rateAbs (lim.serve t s' a [] v).1 t src = n) := by
+  intro n r
+  obtain ⟨c1, c2, c3, c4⟩ := rate_serve rates hv hne lim t0 t hinv ht src victim
+  rw [intervenes_rate l hk]
+  refine ⟨?_, ?_, c3, c4, fun _ => rfl, RL.inv_serve rates hv lim t0 t hinv ht src 1 victim, ?_⟩
+  · rw [c2]; simp [n]
+  · rw [c1]; simp [n]
+  · intro s' a v hs hvict
+    exact rate_serve_other lim t src s' a v hs hvict
+
+/-- **cbreaker.**  The flag of a cbreaker layer is `brkFlag b now = (state = tripped ∧ now < until)` of the breaker model.  In the
+states of the C20 harness (`brkSettled`: standby, or tripped with the fallback period running) `CB.arrive` (`activateFallback`)
+answers with the fallback exactly when `Stack.intervenes` says so, passes exactly in standby (`C05_standby_passes`), and does
+not change the breaker — `Stack.enter .cbreaker = Stack.leave .cbreaker = id`.  A `record`, and a `check` / `complete` that does
+not trip the breaker, keep the flag at every instant: it changes only when the breaker's own condition fires (C18) or the
+fallback period ends (C05).
+
+**Outside this link:** the recovery ramp.  In state `recovering` admission is the ratio test of C12; and in state `tripped`
+with the deadline reached the arrival that starts the ramp is itself answered by the fallback (last clause: `allowRequest` at
+elapsed time 0 denies) although `now < until` is false — "tripped and `now < until`" describes the fallback answers only within
+`brkSettled`.  The C20 harness never reaches those states (default `FallbackDuration` 10 s, requests follow at once). -/
+theorem C20_link_breaker (c : CB.Cfg) (b : CB.Brk) (now : Nat) (l : LayerCfg) (hk : l.kind = Kind.cbreaker) (req : Req)
+    (hdom : brkSettled b now) :
+    ((CB.arrive c b now).1 = .fallback ↔ intervenes { l with tripped := brkFlag b now } req = true)
+    ∧ ((CB.arrive c b now).1 = .pass ↔ b.state = .standby)
+    ∧ (CB.arrive c b now).2 = b
+    ∧ (∀ k, enter Kind.cbreaker k = k ∧ leave Kind.cbreaker k = k)
+    ∧ (∀ t code at', brkFlag (CB.record b t code) at' = brkFlag b at')
+    ∧ (∀ t orc at', (CB.checkAndSet c b t orc).2 = false → brkFlag (CB.checkAndSet c b t orc).1 at' = brkFlag b at')
+    ∧ (∀ t code orc at', (CB.complete c b t code orc).2 = false → brkFlag (CB.complete c b t code orc).1 at' = brkFlag b at')
+    ∧ (∀ b' : CB.Brk, b'.state = .tripped → b'.until_ ≤ now →
+        (CB.arrive c b' now).1 = .fallback ∧ brkFlag b' now = false ∧ (CB.arrive c b' now).2.state = .recovering) := by
+  have hint : intervenes { l with tripped := brkFlag b now } req = brkFlag b now := by
+    simp [intervenes, hk]
+  rw [hint]
+  -- standby: `C05_standby_passes`, read on `arrive`
+  have hstand : b.state = .standby → CB.arrive c b now = (.pass, b) := by
+    intro hs
+    have h5 := C05.C05_standby_passes c b now hs
+    have h2 : (CB.arrive c b now).2 = b := congrArg Prod.fst h5
+    have h1 : (CB.arrive c b now).1 = .pass := by
+      have h3 : (match (CB.arrive c b now).1 with | .pass => CB.Obs.pass | .fallback => CB.Obs.fallback) = CB.Obs.pass :=
+        congrArg Prod.snd h5
+      cases hh : (CB.arrive c b now).1 with
+      | pass => rfl
+      | fallback => rw [hh] at h3; cases h3
+    exact Prod.ext h1 h2
+  refine ⟨?_, ?_, ?_, fun _ => ⟨rfl, rfl⟩, ?_, ?_, ?_, ?_⟩
+  · rcases hdom with hs | ⟨hs, hlt⟩
+    · rw [hstand hs]; simp [brkFlag, hs]
+    · rw [CB.arrive_tripped_before c b now hs hlt]; simp [brkFlag, hs, hlt]
+  · rcases hdom with hs | ⟨hs, hlt⟩
+    · rw [hstand hs]; simp [hs]
+    · rw [CB.arrive_tripped_before c b now hs hlt]; simp [hs]
+  · rcases hdom with hs | ⟨hs, hlt⟩
+    · rw [hstand hs]
+    · rw [CB.arrive_tripped_before c b now hs hlt]
+  · intro t code at'
+    obtain ⟨h1, h2, _⟩ := CB.record_fields b t code
+    exact brkFlag_eq_of_fields h1 h2 at'
+  · intro t orc at' hf
+    obtain ⟨h1, h2, _⟩ := CB.check_false c b t orc hf
+    exact brkFlag_eq_of_fields h1 h2 at'
+  · intro t code orc at' hf
+    obtain ⟨h1, h2, _⟩ := CB.complete_false c b t code orc hf
+    exact brkFlag_eq_of_fields h1 h2 at'
+  · intro b' hs hge
+    rw [CB.arrive_tripped_after c b' now hs hge]
+    refine ⟨rfl, ?_, rfl⟩
+    simp [brkFlag, hs]; omega
+
+/-- **roundrobin / rebalancer.**  The flag of a balancer layer is `balFlag ws` = "no member of positive weight" of the
+round-robin model — the empty pool (`ErrNoServers`, the harness's configuration) and also a pool whose weights are all zero.
+`RR.next` (`nextServer`) after any number `j` of calls since the pool last changed answers with one of its two errors — the
+error `ServeHTTP` hands to the error handler: `Stack`'s 500 — exactly when `Stack.intervenes` says so, leaving the iterator
+untouched (`C01_empty_error`, `C01_all_zero_error`); otherwise it selects an existing member of positive weight
+(`C01_selects_positive`), never runs out of fuel; the routing part of `ServeHTTP` (`PoolM.Bal.route`, the object of C02) on a
+request without sticky cookie hands exactly that error to the error handler, resp. forwards; and in no case do the weights
+change: the flag is stable,
+`Stack.enter = Stack.leave = id`.  So "some member has positive weight" is the non-intervening configuration.  (A request
+carrying a valid sticky cookie is routed without `NextServer`, C02/C11; the stack model's requests carry none.) -/
+theorem C20_link_balancer (ws : List Nat) (j : Nat) (l : LayerCfg)
+    (hk : l.kind = Kind.roundrobin ∨ l.kind = Kind.rebalancer) (req : Req) :
+    let s := RR.after ws j RR.It.reset
+    let r := RR.next ws s
+    ((r.1 = .errNoServers ∨ r.1 = .errAllZero) ↔ intervenes { l with tripped := balFlag ws } req = true)
+    ∧ (ws = [] → r = (.errNoServers, s))
+    ∧ (intervenes { l with tripped := balFlag ws } req = true → r.2 = s)
+    ∧ (intervenes { l with tripped := balFlag ws } req = false → ∃ i, r.1 = .sel i ∧ i < ws.length ∧ 0 < ws.getD i 0)
+    ∧ (∀ (b : PoolM.Bal) (sticky : Bool), b.ws = ws → b.it = s →
+        (intervenes { l with tripped := balFlag ws } req = true → ∃ b', b.route sticky none = (.err r.1, b')) ∧
+        (intervenes { l with tripped := balFlag ws } req = false → ∃ ref b', b.route sticky none = (.fwd ref false, b')))
+    ∧ (∀ {κ : Type} (p : RR.Pool κ), p.nextServer.2.ws = p.ws ∧ p.nextServer.2.keys = p.keys)
+    ∧ (∀ k, enter l.kind k = k ∧ leave l.kind k = k) := by
+  intro s r
+  have hint : intervenes { l with tripped := balFlag ws } req = balFlag ws := by
+    rcases hk with hk | hk <;> simp [intervenes, hk]
+  rw [hint]
+  have hpos : balFlag ws = false → ∃ i, r.1 = .sel i ∧ i < ws.length ∧ 0 < ws.getD i 0 := by
+    intro hf
+    have hex := (balFlag_false_iff ws).mp hf
+    exact C01.C01_selects_positive ws hex j 1 r.1 (by simp [RR.run, r, s])
+  have herr : balFlag ws = true → r = (if ws = [] then .errNoServers else .errAllZero, s) := by
+    intro ht
+    by_cases he : ws = []
+    · subst he; simp only [if_true]; exact C01.C01_empty_error s
+    · simp only [he, if_false]
+      exact C01.C01_all_zero_error ws he ((balFlag_true_iff ws).mp ht) s
+  refine ⟨?_, ?_, ?_, hpos, ?_, fun p => ⟨rfl, rfl⟩, ?_⟩
+  · constructor
+    · intro he
+      by_contra hc
+      obtain ⟨i, hi, _⟩ := hpos (by simpa using hc)
+      rw [hi] at he; simp at he
+    · intro ht
+      rw [herr ht]
+      by_cases he : ws = [] <;> simp [he]
+  · intro he; subst he; exact C01.C01_empty_error s
+  · intro ht; rw [herr ht]
+  · intro b sticky hws hit
+    obtain ⟨hsel, hno⟩ := route_nocookie b sticky
+    rw [hws, hit] at hsel hno
+    constructor
+    · intro ht
+      apply hno
+      intro i hi
+      have := herr ht
+      rw [show RR.next ws s = r from rfl] at hi
+      rw [this] at hi
+      by_cases he : ws = [] <;> simp [he] at hi
+    · intro hf
+      obtain ⟨i, hi, _⟩ := hpos hf
+      exact hsel i hi
+  · intro k
+    rcases hk with hk | hk <;> rw [hk] <;> exact ⟨rfl, rfl⟩
+
+/-- **buffer.**  For every configuration of the Buffer model (`maxReq ≤ 0`: no limit — the default `-1`, or `0`) and every
+request (declared length or chunked), with the stack layer's `maxReq := cfg.maxReq.toNat` and `bodyLen :=` the length of the
+body: when `Stack.intervenes` the Buffer model answers 413 with the fixed text — the status and bytes of
+`Stack.interventionResp` — without invoking the handler (`C15_request_over_limit_413_no_invoke`); otherwise the request reaches
+the handler (`C15_within_limit_reaches_handler`). -/
+theorem C20_link_buffer (cfg : Buf.Cfg) (breq : Buf.Req) (script : Nat → Buf.Attempt) (l : LayerCfg)
+    (hk : l.kind = Kind.buffer) :
+    let l' : LayerCfg := { l with maxReq := cfg.maxReq.toNat }
+    (Buf.requestOver cfg breq ↔ intervenes l' ⟨breq.body.length⟩ = true)
+    ∧ (intervenes l' ⟨breq.body.length⟩ = true →
+        (Buf.serve cfg breq script).invocations = 0
+        ∧ (Buf.serve cfg breq script).resp.status = some (interventionResp l').status
+        ∧ (Buf.serve cfg breq script).resp.body.map UInt8.toNat = (interventionResp l').body
+        ∧ (Buf.serve cfg breq script).hijacked = false)
+    ∧ (intervenes l' ⟨breq.body.length⟩ = false → 1 ≤ (Buf.serve cfg breq script).invocations) := by
+  intro l'
+  have hiff : Buf.requestOver cfg breq ↔ intervenes l' ⟨breq.body.length⟩ = true := by
+    simp only [Buf.requestOver, intervenes, l', hk, Bool.and_eq_true, decide_eq_true_eq]
+    omega
+  refine ⟨hiff, ?_, ?_⟩
+  · intro hi
+    obtain ⟨h1, h2, h3, h4⟩ := C15.C15_request_over_limit_413_no_invoke cfg breq script (hiff.mpr hi)
+    refine ⟨h1, ?_, ?_, h4⟩
+    · rw [h2]; simp [interventionResp, l', hk]
+    · rw [h3]; simp only [interventionResp, l', hk]; decide
+  · intro hi
+    exact C15.C15_within_limit_reaches_handler cfg breq script (by rw [hiff, hi]; simp)
+
+/-- **The decision of every layer, at once.**  For a layer given by the state of its own model (`StackLink.Layer`:
+connection limiter after a history, rate limiter state at a frozen instant, breaker state, pool weights, buffer configuration)
+the model hands the request on (`Layer.admits`: `acquire` succeeds, `consumeRates` succeeds, `activateFallback` passes,
+`NextServer` selects, the request is within `MaxRequestBodyBytes`) iff the stack model's abstraction of that layer
+(`Layer.cfg`) does not intervene. -/
+theorem C20_link_decision (m : Layer) (req : Req) (hok : m.ok req) :
+    m.admits ↔ intervenes m.cfg req = false := by
+  cases m with
+  | plain l =>
+    simp only [Layer.admits, Layer.cfg, true_iff]
+    rcases hok with hk | hk <;> simp [intervenes, hk]
+  | conn l slow hist src =>
+    obtain ⟨hk, h1⟩ := hok
+    obtain ⟨_, hdec, _⟩ := C20_link_connlimit l.limit slow hist h1 src l hk rfl req
+    simp only [Layer.admits, Layer.cfg, connState]
+    rw [← hdec]
+    cases ConnLimit.acquire _ src 1 _ <;> simp
+  | rate l rates lim t0 t src victim =>
+    obtain ⟨hk, hv, hne, hinv, ht⟩ := hok
+    exact (C20_link_ratelimit rates hv hne lim t0 t hinv ht src victim l hk req).2.1
+  | brk l c b now =>
+    obtain ⟨hk, hdom⟩ := hok
+    obtain ⟨h1, _⟩ := C20_link_breaker c b now l hk req hdom
+    simp only [Layer.admits, Layer.cfg]
+    rw [← Bool.not_eq_true, ← h1]
+    cases (CB.arrive c b now).1 <;> simp
+  | bal l ws j =>
+    obtain ⟨h1, _, _, h4, _⟩ := C20_link_balancer ws j l hok req
+    simp only [Layer.admits, Layer.cfg]
+    constructor
+    · rintro ⟨i, hi⟩
+      rw [← Bool.not_eq_true, ← h1, hi]; simp
+    · intro hf
+      obtain ⟨i, hi, _⟩ := h4 hf
+      exact ⟨i, hi⟩
+  | buf l cfg breq =>
+    obtain ⟨hk, hlen⟩ := hok
+    obtain ⟨h1, _⟩ := C20_link_buffer cfg breq (fun _ => {}) l hk
+    simp only [Layer.admits, Layer.cfg]
+    rw [h1, hlen]; simp
+
+/-- **Transparent, composed with the per-layer models.**  A stack whose layers are given by the states of their own models, all
+well-formed, **none of whose models refuses the request**: the conclusion of `C20_transparent` holds for the stack model's
+abstraction of it.  (The remaining hypotheses are about the handler's *response* — within the buffers' response maxima, no
+retry predicate looking at a 502/504, `infoDomain`, `bodyDomain` — exactly as in `C20_transparent`.) -/
+theorem C20_transparent_composed (ms : List Layer) (h : Req → Script) (req : Req)
+    (hok : ∀ m ∈ ms, m.ok req) (hadm : ∀ m ∈ ms, m.admits)
+    (hresp : ∀ m ∈ ms, overflows m.cfg (scriptResp (h req)).body.length = false
+      ∧ (retryBuf m.cfg && netErr (scriptResp (h req)).status) = false)
+    (hdom : infoDomain (ms.map Layer.cfg) (h req)) (hbody : bodyDomain (ms.map Layer.cfg) (h req)) :
+    (serveStack (ms.map Layer.cfg) h req).invoked = 1
+    ∧ (serveStack (ms.map Layer.cfg) h req).resp
+        = (if (h req).hijack then scriptResp (h req) else decorate (ms.map Layer.cfg) (scriptResp (h req)))
+    ∧ (serveStack (ms.map Layer.cfg) h req).hijacked = (h req).hijack
+    ∧ (∃ c, (serveStack (ms.map Layer.cfg) h req).seen = some c ∧ c.canHijack = true
+        ∧ (c.canFlush = true ∨ hasBuffer (ms.map Layer.cfg)))
+    ∧ (¬ hasBuffer (ms.map Layer.cfg) →
+        (serveStack (ms.map Layer.cfg) h req).flushed = (flushRequested (h req) && !(h req).hijack))
+    ∧ (¬ hasBuffer (ms.map Layer.cfg) →
+        (serveStack (ms.map Layer.cfg) h req).infos = (if (h req).hijack then [] else (h req).info)) := by
+  apply C20_transparent _ h req _ hdom hbody
+  intro lc hlc
+  obtain ⟨m, hm, rfl⟩ := List.mem_map.mp hlc
+  exact ⟨(C20_link_decision m req (hok m hm)).mp (hadm m hm), (hresp m hm).1, (hresp m hm).2⟩
+
+/-- **Decisive, composed with the per-layer models.**  If the model of the layer `M` refuses the request and the models of all
+layers outside it hand it on, the client receives `M`'s documented response and the handler is not invoked (whatever the layers
+inside `M` are). -/
+theorem C20_decisive_composed (outer : List Layer) (M : Layer) (inner : List LayerCfg) (h : Req → Script) (req : Req)
+    (hok : ∀ m ∈ outer, m.ok req) (hadm : ∀ m ∈ outer, m.admits) (hokM : M.ok req) (hrefuse : ¬ M.admits)
+    (hlim : ∀ m ∈ outer, overflows m.cfg (interventionResp M.cfg).body.length = false)
+    (hkeep : ¬ hasBuffer (outer.map Layer.cfg) ∨ expectBody (interventionResp M.cfg).status (interventionResp M.cfg).headers = true) :
+    serveStack (outer.map Layer.cfg ++ M.cfg :: inner) h req
+      = ⟨decorate (outer.map Layer.cfg) (interventionResp M.cfg), 0, none, false, false, [], true⟩ := by
+  apply C20_decisive_at _ _ _ h req _ _ hkeep
+  · intro lc hlc
+    obtain ⟨m, hm, rfl⟩ := List.mem_map.mp hlc
+    exact ⟨(C20_link_decision m req (hok m hm)).mp (hadm m hm), hlim m hm⟩
+  · have := C20_link_decision M req hokM
+    cases hi : intervenes M.cfg req with
+    | true => rfl
+    | false => exact absurd (this.mpr hi) hrefuse
+
+/-! ### non-vacuity of the link theorems -/
+
+/-- `C20_link_connlimit`: limit 1, two sources, a panic exit.  After `a` is admitted the abstract state of `s` is 1, the stack
+intervenes, `b` is refused; after `a` has panicked it is 0 again and the stack passes. -/
+private def connHist : List ConnLimit.Event :=
+  [.start "a" "s" 1, .start "b" "s" 1, .start "c" "t" 1, .finish "a" .panic]
+example : ConnLimit.amountsOne connHist = true := by decide
+example : connAbs (ConnLimit.runR (ConnLimit.SysR.init 1 false) (connHist.take 3)) "s" = 1
+    ∧ intervenes (eff { kind := .connlimit, limit := 1 } 1) ⟨0⟩ = true
+    ∧ connAbs (ConnLimit.runR (ConnLimit.SysR.init 1 false) connHist) "s" = 0
+    ∧ intervenes (eff { kind := .connlimit, limit := 1 } 0) ⟨0⟩ = false
+    ∧ ConnLimit.findReq (ConnLimit.runR (ConnLimit.SysR.init 1 false) (connHist.take 3)).base.inflight "a" = some ⟨"a", "s", 1⟩
+    ∧ ConnLimit.findRej (ConnLimit.runR (ConnLimit.SysR.init 1 false) (connHist.take 3)).rejecting "a" = none := by decide
+
+/-- `C20_link_ratelimit`: the two configurations of the C20 harness.  Rate 1 per second, burst 1: one token at first contact,
+none after one admitted request (the stack's "at its limit"), still none after the refusal that follows.  Burst 10^6: the
+stack's `10^6` tokens. -/
+private def r1 : RL.Rate := ⟨1000000000, 1, 1⟩
+private def rM : RL.Rate := ⟨1000000000, 1000000, 1000000⟩
+example : RL.ValidRates [r1] ∧ RL.ValidRates [rM] ∧ [r1] ≠ [] :=
+  ⟨⟨by decide, by decide⟩, ⟨by decide, by decide⟩, by decide⟩
+example : RL.LimiterInv [r1] (RL.Limiter.new [r1] 0) 0 := RL.inv_new _ _
+example : rateAbs (RL.Limiter.new [r1] 0) 0 "s" = 1
+    ∧ ((RL.Limiter.new [r1] 0).serve 0 "s" 1 [] "").2 = .ok
+    ∧ rateAbs ((RL.Limiter.new [r1] 0).serve 0 "s" 1 [] "").1 0 "s" = 0
+    ∧ ((((RL.Limiter.new [r1] 0).serve 0 "s" 1 [] "").1).serve 0 "s" 1 [] "").2 = .tooMany 1000000000
+    ∧ rateAbs ((((RL.Limiter.new [r1] 0).serve 0 "s" 1 [] "").1).serve 0 "s" 1 [] "").1 0 "s" = 0
+    ∧ rateAbs (RL.Limiter.new [rM] 0) 0 "s" = 1000000
+    ∧ rateAbs ((RL.Limiter.new [rM] 0).serve 0 "s" 1 [] "").1 0 "s" = 999999 := by decide
+/-- … and with two rates the abstraction is the scarcer bucket -/
+example : rateAbs (RL.Limiter.new [⟨1000000000, 5, 5⟩, ⟨60000000000, 2, 2⟩] 0) 0 "s" = 2 := by decide
+
+/-- `C20_link_breaker`: a fresh breaker and a breaker tripped until 100 seen at 50 are inside the domain; at 100 the same
+breaker is outside it, and the arrival is answered by the fallback although the flag is down (start of the ramp). -/
+private def bTripped : CB.Brk := { CB.Brk.init with state := .tripped, until_ := 100 }
+example : brkSettled CB.Brk.init 5 ∧ brkFlag CB.Brk.init 5 = false
+    ∧ brkSettled bTripped 50 ∧ brkFlag bTripped 50 = true ∧ ¬ brkSettled bTripped 100 := by decide
+example : (CB.arrive C05.exCfg bTripped 50).1 = .fallback ∧ (CB.arrive C05.exCfg CB.Brk.init 5).1 = .pass
+    ∧ (CB.arrive C05.exCfg bTripped 100).1 = .fallback ∧ brkFlag bTripped 100 = false := by decide
+
+/-- `C20_link_balancer`: the empty pool and an all-zero pool raise the flag, a pool with a positive weight does not -/
+example : balFlag [] = true ∧ balFlag [0, 0] = true ∧ balFlag [0, 3, 1] = false
+    ∧ (RR.next [] RR.It.reset).1 = .errNoServers ∧ (RR.next [0, 0] RR.It.reset).1 = .errAllZero
+    ∧ (RR.next [0, 3, 1] (RR.after [0, 3, 1] 2 RR.It.reset)).1 = .sel 1 := by decide
+
+/-- `C20_link_buffer`: maximum 16, bodies of 17 and 16 bytes (chunked and declared); maximum `-1` / `0`: no limit -/
+private def bodyOf (n : Nat) (chunked : Bool) : Buf.Req := ⟨"POST", "/p", [], chunked, List.replicate n 7⟩
+example : Buf.requestOver { maxReq := 16 } (bodyOf 17 false) ∧ Buf.requestOver { maxReq := 16 } (bodyOf 17 true)
+    ∧ ¬ Buf.requestOver { maxReq := 16 } (bodyOf 16 false) ∧ ¬ Buf.requestOver {} (bodyOf 17 false)
+    ∧ ¬ Buf.requestOver { maxReq := 0 } (bodyOf 17 false) := by decide
+example : intervenes { kind := .buffer, maxReq := (16 : Int).toNat } ⟨17⟩ = true
+    ∧ intervenes { kind := .buffer, maxReq := (-1 : Int).toNat } ⟨17⟩ = false := by decide
+
+/-- `C20_link_decision` / `C20_transparent_composed`: a depth-6 stack given by model states — a trace, a connection limiter of
+2 with one request of the source inside, a rate limiter at first contact, a fresh breaker, a sticky rebalancer over one server
+after three selections, a buffer of maximum 16 — and a request of 16 bytes: every model admits … -/
+private def msPass : List Layer :=
+  [.plain { kind := .trace },
+   .conn { kind := .connlimit, limit := 2 } false [.start "a" "s" 1, .start "x" "t" 1] "s",
+   .rate { kind := .ratelimit } [r1] (RL.Limiter.new [r1] 0) 0 0 "s" "",
+   .brk { kind := .cbreaker } C05.exCfg CB.Brk.init 5,
+   .bal { kind := .rebalancer, sticky := some "sk4" } [1] 3,
+   .buf { kind := .buffer, maxResp := 100 } { maxReq := 16 } (bodyOf 16 false)]
+example : (∀ m ∈ msPass, m.ok ⟨16⟩) := by
+  intro m hm
+  simp only [msPass, List.mem_cons, List.not_mem_nil, or_false] at hm
+  rcases hm with rfl | rfl | rfl | rfl | rfl | rfl
+  · exact Or.inr rfl
+  · exact ⟨rfl, by decide⟩
+  · exact ⟨rfl, ⟨by decide, by decide⟩, by decide, RL.inv_new _ _, Nat.le_refl _⟩
+  · exact ⟨rfl, by decide⟩
+  · exact Or.inr rfl
+  · exact ⟨rfl, by decide⟩
+example : (∀ m ∈ msPass, m.admits) := by
+  intro m hm
+  simp only [msPass, List.mem_cons, List.not_mem_nil, or_false] at hm
+  rcases hm with rfl | rfl | rfl | rfl | rfl | rfl
+  · trivial
+  · show ConnLimit.acquire _ _ _ _ ≠ none; decide
+  · show (RL.Limiter.serve _ _ _ _ _ _).2 = _; decide
+  · show (CB.arrive _ _ _).1 = _; decide
+  · exact ⟨0, by decide⟩
+  · show ¬ Buf.requestOver _ _; decide
+/-- … the response-side hypotheses hold, and the conclusion is the non-trivial one -/
+example : (∀ m ∈ msPass, overflows m.cfg (scriptResp (h1 ⟨16⟩)).body.length = false
+      ∧ (retryBuf m.cfg && netErr (scriptResp (h1 ⟨16⟩)).status) = false)
+    ∧ (h1 ⟨16⟩).status.isSome = true ∧ expectBody (scriptResp (h1 ⟨16⟩)).status (h1 ⟨16⟩).headers = true := by decide
+example : msPass.map Layer.cfg =
+    [{ kind := .trace }, { kind := .connlimit, limit := 2 }, { kind := .ratelimit }, { kind := .cbreaker },
+     { kind := .rebalancer, sticky := some "sk4" }, { kind := .buffer, maxResp := 100, maxReq := 16 }] := by decide
+example : (serveStack (msPass.map Layer.cfg) h1 ⟨16⟩).invoked = 1 ∧ (serveStack (msPass.map Layer.cfg) h1 ⟨16⟩).resp.status = 201
+    ∧ (serveStack (msPass.map Layer.cfg) h1 ⟨16⟩).resp.headers.length = 3 := by decide
+
+/-- `C20_decisive_composed`: the same rate limiter after one admitted request refuses (no token left) behind the trace and the
+connection limiter, which admit: 429 from the rate limiter, handler not invoked -/
+private def mRefuse : Layer :=
+  .rate { kind := .ratelimit } [r1] ((RL.Limiter.new [r1] 0).serve 0 "s" 1 [] "").1 0 0 "s" ""
+example : mRefuse.ok ⟨0⟩ ∧ ¬ mRefuse.admits :=
+  ⟨⟨rfl, ⟨by decide, by decide⟩, by decide, RL.inv_serve _ ⟨by decide, by decide⟩ _ 0 0 (RL.inv_new _ _) (Nat.le_refl _) _ _ _,
+    Nat.le_refl _⟩, by show ¬ (RL.Limiter.serve _ _ _ _ _ _).2 = _; decide⟩
+example : (serveStack ((msPass.take 2).map Layer.cfg ++ mRefuse.cfg :: [{ kind := .buffer }]) h1 ⟨0⟩).resp.status = 429
+    ∧ (serveStack ((msPass.take 2).map Layer.cfg ++ mRefuse.cfg :: [{ kind := .buffer }]) h1 ⟨0⟩).invoked = 0 := by decide
+
+end link
 
 end C20
